@@ -1,0 +1,74 @@
+//go:build verif
+
+package core
+
+//@ spec func chainsOK(c ref) bool = c != nil && (forall i int, j int :: 0 <= i && i < len(c.CertificateChainList) && 0 <= j && j < len(c.CertificateChainList[i].CertificateChainEntryList) ==> c.CertificateChainList[i].CertificateChainEntryList[j].Certificate != nil && c.CertificateChainList[i].CertificateChainEntryList[j].Certificate.SerialNumber != nil)
+
+//@ func CertificateChains.AddCertificateChain
+//@   props C07
+//@   requires c != nil
+//@   assigns *c, E.core.CertificateChain
+//@   ensures len(c.CertificateChainList) == old(len(c.CertificateChainList)) + 1
+//@   ensures c.CertificateChainList[old(len(c.CertificateChainList))].CertificateChainEntryList == chain.CertificateChainEntryList
+//@   ensures forall i int :: 0 <= i && i < old(len(c.CertificateChainList)) ==> c.CertificateChainList[i].CertificateChainEntryList == old(c.CertificateChainList[i].CertificateChainEntryList)
+
+//@ func CertificateChain.AddCertificateChainEntry
+//@   props C07
+//@   requires c != nil && entry != nil
+//@   assigns *c, E.core.CertificateChainEntry
+//@   ensures len(c.CertificateChainEntryList) == old(len(c.CertificateChainEntryList)) + 1
+//@   ensures c.CertificateChainEntryList[old(len(c.CertificateChainEntryList))].Certificate == old(entry.Certificate)
+//@   ensures forall j int :: 0 <= j && j < old(len(c.CertificateChainEntryList)) ==> c.CertificateChainEntryList[j].Certificate == old(c.CertificateChainEntryList[j].Certificate)
+
+//@ func NewCertificateChains
+//@   props C07 C04
+//@   requires forall i int, j int :: 0 <= i && i < len(verifiedChains) && 0 <= j && j < len(verifiedChains[i]) ==> verifiedChains[i][j] != nil
+//@   requires forall k int :: 0 <= k && k < len(trustedSignerCerts) ==> trustedSignerCerts[k] != nil
+//@   assigns E.core.CertificateChain, E.core.CertificateChainEntry
+//@   fresh r0
+//@   ensures ret != nil
+
+//@ func NewCertificateChainsFromEntry
+//@   props C07
+//@   requires chainEntry != nil
+//@   assigns E.core.CertificateChain, E.core.CertificateChainEntry
+//@   fresh r0
+//@   ensures ret != nil
+
+//@ func FindCertificateIssuerCandidates
+//@   props C07 C04 C05
+//@   requires extensions != nil && chains != nil && issuer != nil
+//@   requires certs_nonnil: chainsOK(chains)
+//@   assigns E.uint8, X.stream, E.*core.CertificateChainEntry
+//@   ensures err == nil ==> forall k int :: 0 <= k && k < len(ret) ==> ret[k] != nil && ret[k].Certificate != nil
+
+//@ func findCertificateCandidatesFromKeyIdentifier
+//@   props C07 C04
+//@   requires verifiedChains != nil && authorityKeyIdentifier != nil && chainsOK(verifiedChains)
+//@   assigns E.uint8, X.stream, E.*core.CertificateChainEntry
+//@   ensures err == nil ==> forall k int :: 0 <= k && k < len(ret) ==> ret[k] != nil && ret[k].Certificate != nil
+//@   loop 1 invariant forall k int :: 0 <= k && k < len(certificateCandidates) ==> certificateCandidates[k] != nil && certificateCandidates[k].Certificate != nil
+//@   loop 2 invariant forall k int :: 0 <= k && k < len(certificateCandidates) ==> certificateCandidates[k] != nil && certificateCandidates[k].Certificate != nil
+
+//@ func findCertificateBySerialAndIssuer
+//@   props C07 C04
+//@   requires verifiedChains != nil && identifier != nil && identifier.AuthorityCertSerialNumber != nil && chainsOK(verifiedChains)
+//@   assigns E.uint8, X.stream, E.*core.CertificateChainEntry
+//@   ensures err == nil ==> forall k int :: 0 <= k && k < len(ret) ==> ret[k] != nil && ret[k].Certificate != nil
+//@   loop 1 invariant forall k int :: 0 <= k && k < len(certificateCandidates) ==> certificateCandidates[k] != nil && certificateCandidates[k].Certificate != nil
+//@   loop 2 invariant forall k int :: 0 <= k && k < len(certificateCandidates) ==> certificateCandidates[k] != nil && certificateCandidates[k].Certificate != nil
+
+//@ func findCertificateCandidatesByIssuerAndAlgorithm
+//@   props C07 C04
+//@   requires verifiedChains != nil && issuer != nil && chainsOK(verifiedChains)
+//@   assigns E.uint8, X.stream, E.*core.CertificateChainEntry
+//@   ensures err == nil ==> forall k int :: 0 <= k && k < len(ret) ==> ret[k] != nil && ret[k].Certificate != nil
+//@   loop 1 invariant forall k int :: 0 <= k && k < len(certificateCandidates) ==> certificateCandidates[k] != nil && certificateCandidates[k].Certificate != nil
+//@   loop 2 invariant forall k int :: 0 <= k && k < len(certificateCandidates) ==> certificateCandidates[k] != nil && certificateCandidates[k].Certificate != nil
+
+//@ func parseKeyIdentifierFromExtension
+//@   props C07 C04
+//@   requires keyIdentifierExtension != nil
+//@   pure
+//@   fresh r0
+//@   ensures err == nil ==> ret != nil
